@@ -4,7 +4,8 @@
 
   §1 world level (proofs: Ark/Proofs/RelExchange.lean, RelExchangeSpec.lean, RelExchangeOp.lean).
   From any world satisfying the joint invariant `TInv` (unlocked, no observers), for a live entity
-  `e`, `Exchange(e, add, rem, rels)` writing `vals` through any access path the model offers
+  `e` (ID inside the pool slice: `hsl`; target IDs inside the pool slice: `htin` — both hold for
+  every handle a client was given, see §2), `Exchange(e, add, rem, rels)` writing `vals` through any access path the model offers
   (`Unsafe.Exchange`, `ExchangeN.Exchange`):
 
   * `exchange_accepted` — when the documented preconditions `XchgPre` hold (not both lists empty;
@@ -27,7 +28,8 @@
   §2 over histories (proofs: Ark/Proofs/RelExchangeMachine.lean, RelExchangeHist.lean).  The machine
   `Ark.RelRefine3`: `Op3 = base2 (op : Op2) | xchg p e add vals rem rels` on top of the machine of
   Ark/Props/C05Rel.lean / C01Rel.lean (entity operations with relations, `CopyEntity`, `Shrink`,
-  filter operations, queries).  Bound `ops.length < 2^16`, `Reset`-free histories (as there).
+  `Reset`, filter operations, queries).  Bound `ops.length < 2^16`; `Reset` may occur anywhere in the
+  history (as there, since the pool link no longer demands an empty memory behind the pool slice).
 
   * `refines`, `alive_iff_specified` — the refinement statement of C01Rel for the extended machine;
   * `xchg_keeps_invariant` — the step keeps `HInv2` (⊇ `TInv`, refinement, cache invariant);
@@ -69,25 +71,28 @@ open Ark Ark.World Ark.Props.C01World
 /-- **`Exchange` with relations, accepted**: see the header -/
 theorem exchange_accepted (run : ProbeRunner) (p : Path) {w : World} {fl : List Nat}
     (h : TInv w fl) (hl : w.isLocked = false) (hno : ∀ (evt : Nat), w.obs.hasObservers evt = false)
-    {e : Ent} (h2 : 2 ≤ e.id) (hnf : e.id ∉ fl) (ha : w.alive e = true) {add rem : List Comp}
+    {e : Ent} (h2 : 2 ≤ e.id) (hnf : e.id ∉ fl) (ha : w.alive e = true)
+    (hsl : e.id < w.pool.ents.length) {add rem : List Comp}
     {rels : List RelID} (hp : XchgPre w e add rem rels) (vals : List (Comp × Val))
+    (htin : ∀ (r : RelID), r ∈ rels → r.target.id < w.pool.ents.length)
     (hfew : w.tables.length < maxU32) (hrows : w.entities.length + 1 < 2 ^ 32) :
     ∃ (w' : World), opExchange run p e add vals rem rels w = .ok () w' ∧
       XchgRelPost w fl e add rem vals rels w' :=
-  opExchange_rel_spec run p h hl hno h2 hnf ha hp vals hfew hrows
+  opExchange_rel_spec run p h hl hno h2 hnf ha hsl hp vals htin hfew hrows
 
 /-- `World.exchange` itself (before the values are written): never fails, returns the old and the
     new mask -/
 theorem exchange_core (run : ProbeRunner) {w : World} {fl : List Nat} (h : TInv w fl)
     (hl : w.isLocked = false) (hno : ∀ (evt : Nat), w.obs.hasObservers evt = false) {e : Ent}
-    (h2 : 2 ≤ e.id) (hnf : e.id ∉ fl) (ha : w.alive e = true) {add rem : List Comp}
-    {rels : List RelID} (hp : XchgPre w e add rem rels)
+    (h2 : 2 ≤ e.id) (hnf : e.id ∉ fl) (ha : w.alive e = true) (hsl : e.id < w.pool.ents.length)
+    {add rem : List Comp} {rels : List RelID} (hp : XchgPre w e add rem rels)
+    (htin : ∀ (r : RelID), r ∈ rels → r.target.id < w.pool.ents.length)
     (hfew : w.tables.length < maxU32) (hrows : w.entities.length + 1 < 2 ^ 32) :
     ∃ (w' : World),
       exchangeCore run e add rem rels w =
         .ok (w.maskOf e, add.foldl Mask.set (rem.foldl Mask.clear (w.maskOf e))) w' ∧
       XchgCorePost w fl e add rem rels w' :=
-  exchangeCore_rel_spec run h hl hno h2 hnf ha hp hfew hrows
+  exchangeCore_rel_spec run h hl hno h2 hnf ha hsl hp htin hfew hrows
 
 /-- **rejected**: a dead handle, on any path, whatever the other arguments -/
 theorem exchange_rejected_dead (run : ProbeRunner) (p : Path) (e : Ent) (add : List Comp)
@@ -166,19 +171,19 @@ theorem good_x0 : Good x0 :=
 
 theorem good_x1 : Good x1 :=
   good_x0.newEntity noRun .unsafe_ (by decide +kernel) (by decide +kernel) (by decide +kernel)
-    (by decide +kernel) (by decide +kernel) (by decide +kernel) (by decide +kernel)
+    (by decide +kernel) (by decide +kernel) (by decide +kernel) (by decide +kernel) (by decide +kernel)
 
 theorem good_x2 : Good x2 :=
   good_x1.newEntity noRun .unsafe_ (by decide +kernel) (by decide +kernel) (by decide +kernel)
-    (by decide +kernel) (by decide +kernel) (by decide +kernel) (by decide +kernel)
+    (by decide +kernel) (by decide +kernel) (by decide +kernel) (by decide +kernel) (by decide +kernel)
 
 theorem good_x3 : Good x3 :=
   good_x2.newEntity noRun .typed (by decide +kernel) (by decide +kernel) (by decide +kernel)
-    (by decide +kernel) (by decide +kernel) (by decide +kernel) (by decide +kernel)
+    (by decide +kernel) (by decide +kernel) (by decide +kernel) (by decide +kernel) (by decide +kernel)
 
 theorem good_x4 : Good x4 :=
   good_x3.newEntity noRun .typed (by decide +kernel) (by decide +kernel) (by decide +kernel)
-    (by decide +kernel) (by decide +kernel) (by decide +kernel) (by decide +kernel)
+    (by decide +kernel) (by decide +kernel) (by decide +kernel) (by decide +kernel) (by decide +kernel)
 
 /-- the preconditions hold for the first exchange … -/
 theorem pre_x4 : XchgPre x4 c4 [2, 3] [1] [⟨3, q2⟩] :=
@@ -190,7 +195,7 @@ theorem pre_x4 : XchgPre x4 c4 [2, 3] [1] [⟨3, q2⟩] :=
 theorem good_x5 : panicOf (opExchange noRun .typed c4 [2, 3] [(2, 9)] [1] [⟨3, q2⟩] x4) = none ∧
     Good x5 :=
   good_x4.exchange noRun .typed (by decide +kernel) (by decide +kernel) (by decide +kernel) pre_x4
-    _ (by decide +kernel) (by decide +kernel)
+    _ (by decide +kernel) (by decide +kernel) (by decide +kernel)
 
 theorem pre_x5 : XchgPre x5 c4 [1] [0, 2] [] :=
   ⟨by decide +kernel, by decide +kernel, by decide +kernel, by decide +kernel, by decide +kernel,
@@ -200,7 +205,7 @@ theorem pre_x5 : XchgPre x5 c4 [1] [0, 2] [] :=
 theorem good_x6 : panicOf (opExchange noRun .unsafe_ c4 [1] [(1, 3)] [0, 2] [] x5) = none ∧
     Good x6 :=
   good_x5.2.exchange noRun .unsafe_ (by decide +kernel) (by decide +kernel) (by decide +kernel)
-    pre_x5 _ (by decide +kernel) (by decide +kernel)
+    pre_x5 _ (by decide +kernel) (by decide +kernel) (by decide +kernel)
 
 /-- what the theorem says, observed: before / after the first / after the second exchange -/
 example :
@@ -272,15 +277,15 @@ theorem xchg_keeps_invariant {s : St} {fl : List Nat} (H : HInv2 s fl)
       ∃ w', opExchange run p e add vals rem rels s.w = .ok () w') :=
   step3_xchg run H hfew hent p e add vals rem rels
 
-/-- the invariant at every state reachable without `Reset` -/
+/-- the invariant at every reachable state (`Reset` included) -/
 theorem reach_inv (ops : List Op3) (hlen : ops.length < 2 ^ 16)
-    (hnr : ∀ op ∈ ops, op.isReset = false) : ∃ fl, HInv2 (reach3 run cap rel ops) fl :=
-  reach3_inv run cap rel ops hlen hnr
+    : ∃ fl, HInv2 (reach3 run cap rel ops) fl :=
+  reach3_inv run cap rel ops hlen
 
-/-- **refines** — after every `Reset`-free history with `Exchange`, every entry `(e, en)` of the
+/-- **refines** — after every history with `Exchange` (and `Reset`), every entry `(e, en)` of the
     specification is realised by the world: alive, component set, values, relation targets -/
 theorem refines (ops : List Op3) (hlen : ops.length < 2 ^ 16)
-    (hnr : ∀ op ∈ ops, op.isReset = false) (e : Ent) (en : Entry)
+    (e : Ent) (en : Entry)
     (hm : (e, en) ∈ (reach3 run cap rel ops).ss.ents) :
     (reach3 run cap rel ops).w.alive e = true ∧
     compsOf (reach3 run cap rel ops).w e.id =
@@ -290,14 +295,14 @@ theorem refines (ops : List Op3) (hlen : ops.length < 2 ^ 16)
     (keys en.comps).Nodup ∧ (en.rels.map (·.comp)).Nodup ∧
     (∀ c : Comp, c ∈ en.rels.map (·.comp) ↔
       c ∈ keys en.comps ∧ (reach3 run cap rel ops).w.isRelComp c = true) :=
-  refines3 run cap rel ops hlen hnr e en hm
+  refines3 run cap rel ops hlen e en hm
 
 theorem alive_iff_specified (ops : List Op3) (hlen : ops.length < 2 ^ 16)
-    (hnr : ∀ op ∈ ops, op.isReset = false) (h : Ent)
+    (h : Ent)
     (hi : h ∈ (reach3 run cap rel ops).issued) :
     (reach3 run cap rel ops).w.alive h = true ↔
       (find (reach3 run cap rel ops).ss.ents h).isSome = true :=
-  alive_iff_specified3 run cap rel ops hlen hnr h hi
+  alive_iff_specified3 run cap rel ops hlen h hi
 
 /-- a history without `xchg` is a history of the machine of C05Rel / C01Rel -/
 theorem conservative (ops : List Op2) :
@@ -306,23 +311,23 @@ theorem conservative (ops : List Op2) :
 
 /-- **rejected** — see the header -/
 theorem xchg_rejected (ops : List Op3) (hlen : ops.length + 1 < 2 ^ 16)
-    (hnr : ∀ op ∈ ops, op.isReset = false) (p : Path) (e : Ent) (add : List Comp) (vals : Comps)
+    (p : Path) (e : Ent) (add : List Comp) (vals : Comps)
     (rem : List Comp) (rels : Rels)
     (hg : guardXchg (reach3 run cap rel ops) p e add rels = true)
     (hnp : ¬ preXchg (reach3 run cap rel ops).ss e add rem rels) :
     (∃ k, opExchange run p e add vals rem rels (reach3 run cap rel ops).w =
       .panic k (reach3 run cap rel ops).w) ∧
     reach3 run cap rel (ops ++ [.xchg p e add vals rem rels]) = reach3 run cap rel ops :=
-  RelRefine3.xchg_rejected run cap rel ops hlen hnr p e add vals rem rels hg hnp
+  RelRefine3.xchg_rejected run cap rel ops hlen p e add vals rem rels hg hnp
 
 /-- **accepted** — see the header -/
 theorem xchg_accepted (ops : List Op3) (hlen : ops.length + 1 < 2 ^ 16)
-    (hnr : ∀ op ∈ ops, op.isReset = false) (p : Path) (e : Ent) (add : List Comp) (vals : Comps)
+    (p : Path) (e : Ent) (add : List Comp) (vals : Comps)
     (rem : List Comp) (rels : Rels)
     (hg : guardXchg (reach3 run cap rel ops) p e add rels = true)
     (hp : preXchg (reach3 run cap rel ops).ss e add rem rels) :
     ∃ w', opExchange run p e add vals rem rels (reach3 run cap rel ops).w = .ok () w' :=
-  RelRefine3.xchg_accepted run cap rel ops hlen hnr p e add vals rem rels hg hp
+  RelRefine3.xchg_accepted run cap rel ops hlen p e add vals rem rels hg hp
 
 /-- the entry of `e` after an accepted `xchg` -/
 theorem xchg_entry (ops : List Op3) (p : Path) (e : Ent) (add : List Comp) (vals : Comps)
@@ -345,7 +350,7 @@ theorem xchg_others (ops : List Op3) (p : Path) (e : Ent) (add : List Comp) (val
 
 /-- **the effect of an accepted `Exchange`** over histories -/
 theorem xchg_effect (ops : List Op3) (hlen : ops.length + 1 < 2 ^ 16)
-    (hnr : ∀ op ∈ ops, op.isReset = false) (p : Path) (e : Ent) (add : List Comp) (vals : Comps)
+    (p : Path) (e : Ent) (add : List Comp) (vals : Comps)
     (rem : List Comp) (rels : Rels) {en : Entry}
     (hg : guardXchg (reach3 run cap rel ops) p e add rels = true)
     (hf : find (reach3 run cap rel ops).ss.ents e = some en)
@@ -357,12 +362,12 @@ theorem xchg_effect (ops : List Op3) (hlen : ops.length + 1 < 2 ^ 16)
       (((keys en.comps).filter fun c => decide (c ∉ rem)) ++ add)) ∧
     (∀ cv ∈ en'.comps, valOf s'.w e.id cv.1 = some cv.2) ∧
     (∀ r ∈ en'.rels, targetOf s'.w e.id r.comp = some r.target) :=
-  RelRefine3.xchg_effect run cap rel ops hlen hnr p e add vals rem rels hg hf hok
+  RelRefine3.xchg_effect run cap rel ops hlen p e add vals rem rels hg hf hok
 
 /-- the cache invariant at every reachable state of the extended machine -/
 theorem cacheInv (ops : List Op3) (hlen : ops.length < 2 ^ 16)
-    (hnr : ∀ op ∈ ops, op.isReset = false) : CacheInv (reach3 run cap rel ops).w :=
-  reach3_cacheInv run cap rel ops hlen hnr
+    : CacheInv (reach3 run cap rel ops).w :=
+  reach3_cacheInv run cap rel ops hlen
 
 end Hist
 
@@ -404,6 +409,29 @@ example :
     (demoOps.all fun op => !op.isReset) = true := by
   refine ⟨?_, ⟨?_, ?_⟩, ?_, ⟨?_, ?_⟩, ?_, ?_, ?_, ?_, ?_⟩ <;> decide +kernel
 
+open Ark.RelRefine Ark.RelRefine2 Ark.RelRefine3 in
+/-- … continued by a `Reset`, two new entities (the handles of the new epoch re-use the IDs) and
+    an exchange that adds `Likes → 2.0` to the new child `3.0` -/
+def demoOps2 : List Op3 :=
+  demoOps ++ [.base2 .reset, .base2 (.base (.new .unsafe_ [] [] [])),
+    .base2 (.base (.new .typed [0, 1] [(1, 4)] [⟨0, ⟨2, 0⟩⟩])),
+    .xchg .typed ⟨3, 0⟩ [3] [] [] [⟨3, ⟨2, 0⟩⟩]]
+
+open Ark.RelRefine Ark.RelRefine2 Ark.RelRefine3 Ark.Refine in
+/-- histories with `Reset` are covered: the exchange after the `Reset` is a step whose precondition
+    holds; the specification afterwards; the model agrees with it -/
+example :
+    guardXchg (reach3 C04World.noRun 2 2 (demoOps2.take 15)) .typed ⟨3, 0⟩ [3] [⟨3, ⟨2, 0⟩⟩] = true ∧
+    (find (reach3 C04World.noRun 2 2 (demoOps2.take 15)).ss.ents ⟨3, 0⟩ =
+        some ⟨[(0, 0), (1, 4)], [⟨0, ⟨2, 0⟩⟩]⟩ ∧
+      XchgOK (reach3 C04World.noRun 2 2 (demoOps2.take 15)).ss ⟨[(0, 0), (1, 4)], [⟨0, ⟨2, 0⟩⟩]⟩
+        [3] [] [⟨3, ⟨2, 0⟩⟩]) ∧
+    (reach3 C04World.noRun 2 2 demoOps2).ss.ents =
+      [(⟨3, 0⟩, ⟨[(0, 0), (1, 4), (3, 0)], [⟨0, ⟨2, 0⟩⟩, ⟨3, ⟨2, 0⟩⟩]⟩), (⟨2, 0⟩, ⟨[], []⟩)] ∧
+    Ark.Props.C01Rel.agrees (reach3 C04World.noRun 2 2 demoOps2) = true ∧
+    (demoOps2.any fun op => op.isReset) = true := by
+  refine ⟨?_, ⟨?_, ?_⟩, ?_, ?_, ?_⟩ <;> decide +kernel
+
 /-! ## 3. the exchange batch over relation tables -/
 
 section Batch
@@ -430,12 +458,13 @@ theorem batch_spec (run : ProbeRunner) {w : World} {fl : List Nat} (h : TInv w f
     (hne : ¬ (add = [] ∧ rem = []))
     (hpre : ∀ (t : Nat), t < w.tables.length → TblMatch w fo.filter (fo.rels ++ extra) t →
       (w.tbl t).len ≠ 0 → XchgPreM w (tmask w t) add rem rels)
+    (htin : ∀ (r : RelID), r ∈ rels → r.target.id < w.pool.ents.length)
     {l1 l2 : Lock} {b : Nat} (hcyc : QueryExact.LockCycle w.locks l1 b l2) (hl2 : l2.isLocked = false)
     (hfew : 2 * w.tables.length < maxU32) (hrows : 2 * w.entities.length < 2 ^ 32) :
     ∃ (ts : List Nat) (w' : World), getBatchTables fo extra w = .ok ts w ∧
       exchangeBatch run fo extra add rem rels none w = .ok () w' ∧
       XchgAllPost w fl (ts.flatMap (rowsOf w)) add rem rels w' ∧ w'.locks = l2 :=
-  exchangeBatch_rel_spec run h hl hno fo extra hc hr hne hpre hcyc hl2 hfew hrows
+  exchangeBatch_rel_spec run h hl hno fo extra hc hr hne hpre htin hcyc hl2 hfew hrows
 
 /-- **the singles**, in any order, through any access path -/
 theorem singles_spec (run : ProbeRunner) (p : Path) {add rem : List Comp} {rels : List RelID}
@@ -443,11 +472,14 @@ theorem singles_spec (run : ProbeRunner) (p : Path) {add rem : List Comp} {rels 
     (hno : ∀ (evt : Nat), w.obs.hasObservers evt = false)
     (hlive : ∀ (e : Ent), e ∈ l → 2 ≤ e.id ∧ e.id ∉ fl ∧ w.alive e = true ∧
       XchgPre w e add rem rels)
-    (hnd : (l.map (·.id)).Nodup) (hfew : w.tables.length + l.length < maxU32)
+    (hlin : ∀ (e : Ent), e ∈ l → e.id < w.pool.ents.length)
+    (hnd : (l.map (·.id)).Nodup)
+    (htin : ∀ (r : RelID), r ∈ rels → r.target.id < w.pool.ents.length)
+    (hfew : w.tables.length + l.length < maxU32)
     (hrows : w.entities.length + 1 < 2 ^ 32) :
     ∃ (w'' : World), xchgSeq run p add rem rels l w = .ok () w'' ∧
       XchgAllPost w fl l add rem rels w'' :=
-  xchgSeq_post run p l h hl hno hlive hnd hfew hrows
+  xchgSeq_post run p l h hl hno hlive hlin hnd htin hfew hrows
 
 /-- **C06 for the exchange batch over relation tables: batch = fold of the single exchange, in any
     order** -/
@@ -459,6 +491,7 @@ theorem batch_eq_fold (run : ProbeRunner) (p : Path) {w : World} {fl : List Nat}
     (hne : ¬ (add = [] ∧ rem = []))
     (hpre : ∀ (t : Nat), t < w.tables.length → TblMatch w fo.filter (fo.rels ++ extra) t →
       (w.tbl t).len ≠ 0 → XchgPreM w (tmask w t) add rem rels)
+    (htin : ∀ (r : RelID), r ∈ rels → r.target.id < w.pool.ents.length)
     {l1 l2 : Lock} {b : Nat} (hcyc : QueryExact.LockCycle w.locks l1 b l2) (hl2 : l2.isLocked = false)
     (hfew : 2 * w.tables.length < maxU32) (hrows : 2 * w.entities.length < 2 ^ 32) :
     ∃ (ts : List Nat) (w' : World), getBatchTables fo extra w = .ok ts w ∧
@@ -475,7 +508,7 @@ theorem batch_eq_fold (run : ProbeRunner) (p : Path) {w : World} {fl : List Nat}
           (∀ (i : Nat), compsOf w' i = compsOf w'' i) ∧
           (∀ (i : Nat) (c : Comp), targetOf w' i c = targetOf w'' i c) ∧
           w'.isLocked = w''.isLocked :=
-  exchangeBatch_rel_eq_singles run p h hR hl hno fo extra hc hr hne hpre hcyc hl2 hfew hrows
+  exchangeBatch_rel_eq_singles run p h hR hl hno fo extra hc hr hne hpre htin hcyc hl2 hfew hrows
 
 end Batch
 
@@ -526,11 +559,11 @@ example :
   constructor
   · obtain ⟨ts, w', h1, _, h3, _⟩ := batch_eq_fold noRun .typed h q.rows hl hno foPlainKids []
       rfl (RelsTyped.nil _ _) (add := [3]) (rem := [1]) (rels := [⟨3, gp⟩]) (by decide)
-      (by decide +kernel) hcyc hl2 (by decide +kernel) (by decide +kernel)
+      (by decide +kernel) (by decide +kernel) hcyc hl2 (by decide +kernel) (by decide +kernel)
     exact ⟨ts, w', h1, h3⟩
   · obtain ⟨ts, w', h1, _, h3, _⟩ := batch_eq_fold noRun .unsafe_ h q.rows hl hno foAllKids []
       rfl (RelsTyped.nil _ _) (add := [2]) (rem := [0]) (rels := []) (by decide)
-      (by decide +kernel) hcyc hl2 (by decide +kernel) (by decide +kernel)
+      (by decide +kernel) (by decide +kernel) hcyc hl2 (by decide +kernel) (by decide +kernel)
     exact ⟨ts, w', h1, h3⟩
 
 /-- what the clients see of the children -/
